@@ -465,6 +465,55 @@ fn ixfr_records(chain: &[Version]) -> Vec<AR> {
     out
 }
 
+/// difference sequences for arbitrary (from, to) pairs, framed by the SOA of `new`
+fn ixfr_records_pairs(new: &Version, pairs: &[(Version, Version)]) -> Vec<AR> {
+    let mut out = vec![AR::Soa(new.soa)];
+    for (a, b) in pairs {
+        out.push(AR::Soa(a.soa));
+        out.extend(a.keys.difference(&b.keys).map(|k| AR::Other(*k)));
+        out.push(AR::Soa(b.soa));
+        out.extend(b.keys.difference(&a.keys).map(|k| AR::Other(*k)));
+    }
+    out.push(AR::Soa(new.soa));
+    out
+}
+
+/// IXFR streams whose difference sequences do not chain: the first one does not start at the
+/// version the receiver holds (`base`), or the old SOA of a later one is not the new SOA of its
+/// predecessor (`middle`: one whole difference sequence is missing).  Every SOA is in place, the
+/// framing is "mismatched": such a stream must not be accepted.
+fn unchained_case(cx: &mut Ctx, r: &mut Rng, chain: &[Version], which: &str, cuts_seed: u64, comp: u8) {
+    let uni = cx.uni;
+    let new = chain.last().unwrap().clone();
+    let (z0, pairs): (Version, Vec<(Version, Version)>) = match which {
+        "base" => {
+            // the receiver is one version behind what the first difference sequence starts from
+            if chain.len() < 3 { return; }
+            (chain[0].clone(), chain[1..].windows(2).map(|w| (w[0].clone(), w[1].clone())).collect())
+        }
+        _ => {
+            if chain.len() < 4 { return; }
+            let skip = 1 + (cuts_seed as usize) % (chain.len() - 3);
+            (chain[0].clone(), chain.windows(2).enumerate().filter(|(i, _)| *i != skip).map(|(_, w)| (w[0].clone(), w[1].clone())).collect())
+        }
+    };
+    let recs = ixfr_records_pairs(&new, &pairs);
+    let mut rr = Rng(cuts_seed);
+    let mut cuts = rand_cuts(&mut rr, recs.len());
+    cuts.retain(|c| *c != 1);
+    let msgs = package(r, 251, chunks_of(&recs, &cuts));
+    let label = format!("ixfr:unchained_{}", which);
+    let (st, ap, _) = run_stream(cx, &label, &msgs, comp, &z0, true, &format!("fault_unchained_{}", which));
+    let case = format!("{} z0={} :: {}", label, z0.soa, msgs.iter().map(|m| m.words()).collect::<Vec<_>>().join(" "));
+    cx.chk(!(st == St::Done && ap.result == "Ok" && ap.fin), "ixfr_unchained_diff_accepted", &case,
+        &format!("status {:?}, updater {} finished={}: readers now see {:?}", st, ap.result, ap.fin, ap.final_content.get(&("example.test".to_string(), "SOA".to_string()))));
+    // whatever happens, readers must only ever see versions of the chain that were reached by chaining diffs
+    let mut versions: Vec<Content> = vec![spec_content(uni, Some(z0.soa), &z0.keys)];
+    if which != "base" { versions.push(spec_content(uni, Some(chain[1].soa), &chain[1].keys)); }
+    cx.chk(versions.contains(&ap.final_content) || (st == St::Done && ap.fin), "partial_version_visible", &case,
+        &format!("readers see {:?}", ap.final_content));
+}
+
 fn mutate(r: &mut Rng, uni: &Uni, v: &Version) -> Version {
     let mut keys = v.keys.clone();
     // an IXFR delete section that empties an RRset of several records, one record at a time
@@ -880,6 +929,25 @@ fn main() {
             let other = if fr.chance(1, 2) { Some(Version { soa: chain.last().unwrap().soa + 10, keys: rand_keys(&mut fr, &uni, 8) }) } else { None };
             let comp = fr.below(3) as u8;
             abort_case(&mut cx, &mut fr, &chain, other.as_ref(), comp);
+        }
+    }
+
+    // ---- IXFR difference sequences that do not chain ----
+    {
+        let wa = Version { soa: 60, keys: ks(&[0, 1, 5, 9]) };
+        let wb = Version { soa: 62, keys: ks(&[0, 1, 5, 11]) };
+        let wc = Version { soa: 64, keys: ks(&[0, 1, 12, 15]) };
+        let wd = Version { soa: 66, keys: ks(&[0, 1, 12, 13]) };
+        unchained_case(&mut cx, &mut r, &[wa.clone(), wb.clone(), wc.clone()], "base", 0, 1);
+        unchained_case(&mut cx, &mut r, &[wa.clone(), wb.clone(), wc.clone(), wd.clone()], "middle", 0, 2);
+        let n_un = (if a.thorough { 200 } else { 20 }) * a.scale;
+        for i in 0..n_un {
+            let mut fr = r.fork();
+            let base = Version { soa: 2 * (1 + fr.below(1000) as u32), keys: rand_keys(&mut fr, &uni, 8) };
+            let mut chain = vec![base];
+            for _ in 0..(3 + fr.below(2)) { let nx = mutate(&mut fr, &uni, chain.last().unwrap()); chain.push(nx); }
+            let seed = fr.next(); let comp = fr.below(3) as u8;
+            unchained_case(&mut cx, &mut fr, &chain, if i % 2 == 0 { "base" } else { "middle" }, seed, comp);
         }
     }
 
